@@ -53,7 +53,7 @@ func init() {
 			"fault_truncated", "fault_short_read", "eof_with_data", "eof_with_exact_fit", "fault_error_with_data", "fault_error_without_data",
 			"probe_typed_read_ran_past_end", "probe_typed_read_straddles_end", "probe_mirror_runs", "probe_clone", "probe_iotest_runs",
 			"probe_ioerr_runs", "probe_ioerr_read_crossed_failure", "probe_ioerr_constructor_failed", "probe_bitmap_runs", "probe_bitmap_full_buffer",
-			"probe_parallel_runs", "probe_parallel_lock_contended", "probe_parallel_task_switches", "probe_big_blob",
+			"probe_parallel_runs", "probe_parallel_lock_contended", "probe_parallel_task_switches", "probe_big_blob", "probe_huge_readbytes", "probe_bitmap_recycled_buffer",
 		},
 		rule: "one run = one seeded history: typed writes through the real BinaryWriter (both byte orders, optional prefix), truncation at a tape-chosen byte, then typed reads / ReadBytes / Read / ReadAt / Seek / Clone on the real BinaryReader over one of 11 constructors (memory, reader with Bytes(), simulated ReadSeeker with and without size, simulated ReaderAt, ReadAll path, streaming reader, real file by handle and by path, mmap by path and by handle) with short reads and both EOF styles drawn per Read call; separate families: injected non-EOF failure at byte F, bitmap writer/reader, and 2-4 parallel ReadAt/Clone callers interleaved at every Seek/Read/ReadAt of the shared source by the seeded scheduler; non-trivial = truncated, or a short read / EOF-with-data / exact-fit EOF fired, or a failure was injected, or a bitmap run with >=1 bit, or a scheduled run with a contended lock or >=3 task switches; distinct = hash of (backend, byte order, operation-kind sequence, whence values, schedule)",
 		realStub: map[string][]string{
@@ -71,11 +71,11 @@ func init() {
 	cfgs["C20"] = &propCfg{
 		quickRuns: 30000, thoroughRuns: 2400000,
 		quickBudget: 150 * time.Second, thoroughBudget: 14 * time.Minute,
-		raceShare: 2, singleProc: true,
+		raceShare: 2, singleProc: true, freshEvery: 16,
 		requiredProbes: []string{
 			"wl_css.Lexer", "wl_css.Parser", "wl_html.Lexer", "wl_xml.Lexer", "wl_json.Parser", "wl_js.Lexer", "wl_js.Parse+print+Walk", "wl_strconv", "wl_helpers",
 			"wl_Position/Error", "wl_Input+buffer.Lexer", "wl_StreamLexer", "wl_Indenter", "wl_BinaryWriter/Reader", "wl_buffer.Writer/Reader+misc", "wl_js.AST strings",
-			"probe_identical_inputs", "probe_focused_runs", "probe_decoy_before_real", "probe_fresh_process_compared", "probe_sched_task_switches", "probe_scheduled_runs",
+			"probe_identical_inputs", "probe_focused_runs", "probe_all_identical_runs", "probe_deep_input_runs", "probe_decoy_before_real", "probe_fresh_process_compared", "probe_sched_task_switches", "probe_scheduled_runs", "probe_whole_run_in_fresh_process",
 		},
 		rule: "one run = 2-6 caller tasks, each a deterministic workload (one of 16 entry-point families) over a private instance and private input from an embedded corpus, spliced/mutated/truncated from the tape, half of the runs with two tasks on byte-identical input; executed solo in order, interleaved one-at-a-time by the seeded baton scheduler (yield before every public call and inside every simulated reader/writer/visitor), solo again in reverse order, and for a sample in a fresh process; half of the workers run the same runs under the Go race detector, to which the scheduler is invisible; non-trivial = at least two tasks took at least two turns each; distinct = hash of (multiset of workload kinds, schedule projected on (task, yield site))",
 		realStub: map[string][]string{
